@@ -19,7 +19,7 @@ pub static DEF: CheckDef = CheckDef {
            shapes of rank 1..4 incl. unit dims; gradients installed through gradient_mut() or produced by real \
            backward passes (incl. broadcast parameters); learning rates {0, 2^-3, 0.25, 0.5, 1, 0.1, 0.37}; 1..4 \
            repeated updates with changing frozen subsets; parameters may be untracked handles. Expected values are \
-           computed in the build's float type (old - lr*g), compared bit for bit; parameters without gradient must \
+           computed in the build's float type (old - lr*g), compared bit for bit on dyadic data and within 2 ulp otherwise; parameters without gradient must \
            keep dims, values, flag and the very same buffer. Non-trivial = at least two parameters with a frozen one \
            before an updated one; distinct = distinct (n, subset, shapes, lr, install mode).",
     floors,
@@ -71,7 +71,7 @@ fn check_update(ctx: &mut Ctx, fam: &str, params: &mut Vec<Param>, lr: f64, desc
                 if now_dims != p.dims {
                     ctx.violation(&format!("C13|{}|updated-dims", fam), format!("parameter {} dims {:?} became {:?}\n{}", i, p.dims, now_dims, desc));
                     ok = false;
-                } else if now.iter().map(|x| x.to_bits()).ne(want.iter().map(|x| x.to_bits())) {
+                } else if !now.iter().zip(&want).all(|(a, b)| a.to_bits() == b.to_bits() || ulps(*a, *b) <= 2) {
                     ctx.violation(
                         &format!("C13|{}|updated-values", fam),
                         format!("parameter {} after update {:?} want old - lr*g = {:?} (old {:?} g {:?} lr {})\n{}", i, &now[..now.len().min(12)], &want[..want.len().min(12)], &p.old[..p.old.len().min(12)], &g[..g.len().min(12)], lr, desc),
@@ -115,6 +115,15 @@ fn check_update(ctx: &mut Ctx, fam: &str, params: &mut Vec<Param>, lr: f64, desc
         }
     }
     ok
+}
+
+/// distance in units in the last place (same sign, finite values), else a large number
+fn ulps(a: Float, b: Float) -> u64 {
+    if !(a.is_finite() && b.is_finite()) || (a < 0.0) != (b < 0.0) {
+        return if a == b { 0 } else { u64::MAX };
+    }
+    let (x, y) = (a.abs().to_bits() as u64, b.abs().to_bits() as u64);
+    x.max(y) - x.min(y)
 }
 
 fn snapshot(a: Array) -> Param {
